@@ -45,6 +45,7 @@ class Result:
     props: list[str]
     status: str = "ok"  # ok | failed | undecided | error
     vcs: list[dict] = field(default_factory=list)
+    slow: list[dict] = field(default_factory=list)  # obligations whose solver time was >= 1 s
     n_obligations: int = 0
     n_discharged: int = 0
     failures: list[dict] = field(default_factory=list)
@@ -85,22 +86,42 @@ def _cvc5(smt2: str, timeout_s: float, names: list[str]) -> tuple[str, dict[str,
         os.unlink(path)
 
 
-def _mk_solver(kind: str, timeout_s: float) -> Any:
+def _mk_solver(kind: str, timeout_s: float, ctx: Any = None) -> Any:
     if kind == "z3":
-        s = z3.Solver()
+        s = z3.Solver(ctx=ctx)
     elif kind == "z3-arith2":
-        s = z3.Solver()
+        s = z3.Solver(ctx=ctx)
         s.set("arith.solver", 2)
     elif kind == "z3-qflia":
-        s = z3.Tactic("qflia").solver()
+        s = z3.Tactic("qflia", ctx=ctx).solver()
     else:
         raise ValueError(kind)
     s.set("timeout", max(1, int(timeout_s * 1000)))
     return s
 
 
-# two short passes catch whatever is easy for either arithmetic core, then the long budgets
-PORTFOLIO = (("z3-arith2", 0.04), ("z3", 0.04), ("z3-arith2", 0.32), ("z3-qflia", 0.2), ("z3", 0.3))
+def _isolated(kind: str, timeout_s: float, terms: list[Any]) -> tuple[Any, Any]:
+    """A solver holding `terms` in a z3 context of its own.  z3's search depends on the ids the context has handed out
+    so far, so a query solved in the long-lived main context takes a different course (seconds or minutes) depending on
+    what the process did before -- sampling for cross-checks, earlier obligations.  In a fresh context the same
+    obligation is the same solver input on every run."""
+    ctx = z3.Context()
+    s = _mk_solver(kind, timeout_s, ctx)
+    for t in terms:
+        s.add(t.translate(ctx))
+    return s, ctx
+
+
+# iterative deepening over three configurations (fractions of the obligation's budget): short passes catch whatever is
+# easy for one of them, medium ones what needs a few seconds, then the long budgets.  Every obligation is solved in a
+# z3 context of its own (see _isolated), so which stage decides it -- and after how long -- repeats from run to run;
+# BUDGET_SCALE leaves room for a machine a few times slower or busier than the one the contracts were written on.
+PORTFOLIO = (
+    ("z3-arith2", 0.02), ("z3", 0.02), ("z3-qflia", 0.02),
+    ("z3-qflia", 0.08), ("z3-arith2", 0.08), ("z3", 0.08),
+    ("z3-arith2", 0.3), ("z3-qflia", 0.2), ("z3", 0.25),
+)
+BUDGET_SCALE = 2.0
 
 
 _VARS_CACHE: dict[int, frozenset] = {}
@@ -192,10 +213,7 @@ def discharge(vc: VC, base: list[Any], timeout_s: float, use_cvc5: bool = True, 
         cone = _cone(hyps, neg)
         if len(cone) < len(hyps):
             for kind in ("z3-arith2", "z3"):
-                s0 = _mk_solver(kind, min(4.0, timeout_s * 0.15))
-                for t in cone:
-                    s0.add(t)
-                s0.add(neg)
+                s0, _ctx0 = _isolated(kind, min(4.0, timeout_s * 0.15), list(cone) + [neg])
                 if s0.check() == z3.unsat:
                     vc.status, vc.backend = "proved", kind + "/cone"
                     vc.time_s = time.time() - t0
@@ -212,9 +230,7 @@ def discharge(vc: VC, base: list[Any], timeout_s: float, use_cvc5: bool = True, 
     last = None
     for kind, frac in PORTFOLIO:
         try:
-            s = _mk_solver(kind, timeout_s * frac)
-            for t in goal:
-                s.add(t)
+            s, _ctx = _isolated(kind, timeout_s * frac, goal)
             r = s.check()
         except z3.Z3Exception as ex:
             vc.detail = f"{kind}: {ex}"
@@ -224,7 +240,7 @@ def discharge(vc: VC, base: list[Any], timeout_s: float, use_cvc5: bool = True, 
             vc.status, vc.backend = "proved", kind
             break
         if r == z3.sat:
-            m = s.model()
+            m = s.model().translate(z3.main_ctx())
             # a counter-model is only believed if it really satisfies every hypothesis and the negated goal
             # (guards against a solver configuration answering sat wrongly; such an answer is treated as unknown)
             try:
@@ -345,7 +361,7 @@ def verify(c: Contract, tier: str = "quick", replay: bool = True, chunk: tuple[i
 
 
 def _verify_variant(c: Contract, tier: str, replay: bool, res: Result, choice: dict[str, int], chunk: tuple[int, int] = (0, 1)) -> None:
-    timeout = c.timeout_s * (6 if tier == "thorough" else 1)
+    timeout = c.timeout_s * BUDGET_SCALE * (3 if tier == "thorough" else 1)
     eng = Interp()
     eng.max_paths = c.max_paths
     eng.loop_specs.update(c.loops)
@@ -506,6 +522,8 @@ def _verify_variant(c: Contract, tier: str, replay: bool, res: Result, choice: d
             res.undecided.append(d)
         if len(res.vcs) < 400:
             res.vcs.append(d)
+        if vc.time_s >= 1.0:
+            res.slow.append({"obligation": vc.name[-160:], "backend": vc.backend, "time_s": round(vc.time_s, 2), "budget_s": timeout, "status": vc.status})
 
 
 def _arity(f: Any) -> int:
